@@ -36,12 +36,14 @@ type op struct {
 	Key       string // none | expired | invalid   (only meaningful for protocol 759/760)
 	EncVar    string // good | bad-token-value | bad-token-ct | bad-secret-ct | bad-secret-len
 	UnkVar    int
+	PluginID  int // kPlugin: message id answered (1..n outstanding ones, anything else unsolicited)
 }
 
 type plan struct {
 	Protocol  int
 	Online    bool
 	PreLogin  string
+	PreMsgs   int
 	Threshold int
 	ForceKey  bool
 	Outcome   e2e.Outcome
@@ -92,6 +94,7 @@ func run(pl plan) (res result) {
 		return
 	}
 	ev := e2e.NewEvents(pl.PreLogin)
+	ev.PluginMessages = pl.PreMsgs
 	cfg := e2e.Config()
 	cfg.OnlineMode = pl.Online
 	cfg.Compression.Threshold = pl.Threshold
@@ -211,8 +214,8 @@ func run(pl plan) (res result) {
 			}
 			lastSecret = secret
 		case kPlugin:
-			term, desc = "PluginResp", "login-plugin-response (unsolicited id)"
-			_ = c.Send(e2e.IDLoginPluginResponse, e2e.LoginPluginResponse(77+o.UnkVar, o.UnkVar%2 == 0, []byte{1, 2, 3}))
+			term, desc = lib.App("PluginResp", lib.Nat(o.PluginID)), fmt.Sprintf("login-plugin-response id=%d", o.PluginID)
+			_ = c.Send(e2e.IDLoginPluginResponse, e2e.LoginPluginResponse(o.PluginID, o.UnkVar%2 == 0, []byte{1, 2, 3}))
 		case kAck:
 			term, desc = "LoginAck", "login-acknowledged"
 			_ = c.Send(e2e.IDLoginAcknowledged, nil)
@@ -273,6 +276,11 @@ func run(pl plan) (res result) {
 						f = "OOther"
 						if t, err := e2e.ParseSetCompression(pk.Body); err == nil && t == pl.Threshold {
 							f = "OSetCompression"
+						}
+					case e2e.IDLoginPluginMessage:
+						f = "OOther"
+						if id, n := e2e.GetVarInt(pk.Body); n > 0 && id >= 0 && id < 5000 {
+							f = lib.App("OPluginMsg", lib.Nat(id))
 						}
 					case e2e.IDLoginSuccess:
 						f = "OOther"
@@ -344,6 +352,55 @@ func run(pl plan) (res result) {
 	return
 }
 
+// genWaiting: histories for a proxy whose PreLogin subscriber sends n login plugin messages: the login
+// start is answered with the messages and continues only when the client has answered all of them.
+func genWaiting(r *lib.Rng, n int) []op {
+	login := op{Kind: kLogin, NameValid: true, Key: "none"}
+	ans := func(id int) op { return op{Kind: kPlugin, PluginID: id, UnkVar: r.Intn(4)} }
+	good := op{Kind: kEnc, EncVar: "good"}
+	ack := op{Kind: kAck}
+	var answers []op
+	for _, i := range r.Perm(n) {
+		answers = append(answers, ans(i+1))
+	}
+	switch r.Intn(9) {
+	case 0: // well behaved
+		return append(append([]op{login}, answers...), good, ack)
+	case 1: // duplicate login start BEFORE answering
+		return append(append([]op{login, login}, answers...), good, ack)
+	case 2: // duplicate login start between the answers / after the first answer
+		ops := append([]op{login}, answers...)
+		i := 1 + r.Intn(len(ops))
+		ops = append(ops[:i], append([]op{login}, ops[i:]...)...)
+		return append(ops, good, ack)
+	case 3: // encryption response or acknowledgement before answering
+		return append([]op{login, []op{good, ack}[r.Intn(2)]}, answers...)
+	case 4: // duplicated and unknown answers, then the real ones
+		return append(append([]op{login, ans(77), ans(answers[0].PluginID)}, ans(answers[0].PluginID)), append(answers[1:], good, ack)...)
+	case 5: // only unknown ids: the login must keep waiting
+		return []op{login, ans(9), ans(0), ans(n + 1)}
+	case 6: // not all answered, then a second login start
+		return []op{login, answers[0], login, good}
+	case 7: // answers, then a late duplicate answer and a bad response
+		return append(append([]op{login}, answers...), ans(1), op{Kind: kEnc, EncVar: "token-prefix2"})
+	default:
+		ops := []op{login}
+		for i := r.Range(1, 5); i > 0; i-- {
+			switch r.Intn(6) {
+			case 0:
+				ops = append(ops, login)
+			case 1:
+				ops = append(ops, good)
+			case 2:
+				ops = append(ops, op{Kind: kUnknown, UnkVar: r.Intn(4)})
+			default:
+				ops = append(ops, ans(r.Pick(1, 2, 1, 2, 3, 77)))
+			}
+		}
+		return ops
+	}
+}
+
 func genOps(r *lib.Rng, protocol int) ([]op, string) {
 	encVars := []string{"good", "good", "good", "good", "bad-token-value", "bad-token-ct", "bad-secret-ct", "bad-secret-len",
 		"token-empty", "token-prefix1", "token-prefix3", "token-plus1", "secret-len15", "secret-len32"}
@@ -364,7 +421,7 @@ func genOps(r *lib.Rng, protocol int) ([]op, string) {
 		case 2, 3:
 			return enc(encVars[r.Intn(len(encVars))])
 		case 4:
-			return op{Kind: kPlugin, UnkVar: r.Intn(4)}
+			return op{Kind: kPlugin, UnkVar: r.Intn(4), PluginID: r.Pick(1, 1, 2, 3, 77, 78)}
 		case 5, 6:
 			return op{Kind: kAck}
 		default:
@@ -409,7 +466,7 @@ func main() {
 	rng := lib.NewRng(f.Seed)
 	out := lib.NewOut("C08", f)
 	out.Imports = "From Verif Require Import Model.Login.\n"
-	out.Rule = "protocols 1.8 / 1.19.1 (key window) / 1.20.1 / 1.20.2 / 26.2; online mode 85%, pre-login result none/deny/force-online/force-offline, compression on/off, ForceKeyAuthentication on/off, session outcome profile (40%) or one of 204/401/500/transport error/empty body/bad profile; packet sequences of length <= 6: vanilla exchange with one response variant (good, wrong token, corrupted token ciphertext, corrupted secret ciphertext, 8-byte secret, correctly encrypted tokens of the wrong length: empty / 1-3 byte prefix / issued token + 1 or 4 bytes, secrets of 0/15/17/32 bytes), vanilla with one inserted packet, skipped/repeated steps, invalid names, random sequences over {login start (valid/invalid name, no/expired/forged key), encryption response variants, unsolicited plugin response, login acknowledged, unknown/undecodable packet}; non-trivial = the sequence contains a login start AND an encryption response; distinct = distinct (configuration, operations) ignoring key material"
+	out.Rule = "protocols 1.8 / 1.19.1 (key window) / 1.20.1 / 1.20.2 / 26.2; online mode 85%, pre-login result none/deny/force-online/force-offline, compression on/off, ForceKeyAuthentication on/off, session outcome profile (40%) or one of 204/401/500/transport error/empty body/bad profile; packet sequences of length <= 6: vanilla exchange with one response variant (good, wrong token, corrupted token ciphertext, corrupted secret ciphertext, 8-byte secret, correctly encrypted tokens of the wrong length: empty / 1-3 byte prefix / issued token + 1 or 4 bytes, secrets of 0/15/17/32 bytes), vanilla with one inserted packet, skipped/repeated steps, invalid names, random sequences over {login start (valid/invalid name, no/expired/forged key), encryption response variants, plugin response (outstanding, duplicate or unsolicited id), login acknowledged, unknown/undecodable packet}; every 6th case has a PreLogin subscriber sending 1-2 login plugin messages, with histories that answer them in any order, duplicate answers, answer unknown ids, or send a second login start / an encryption response before, between or after the answers; non-trivial = the sequence contains a login start AND an encryption response; distinct = distinct (configuration, operations) ignoring key material"
 	n := f.Count(300)
 	validAlpha := "abcdefghijklmnopqrstuvwxyzABCDEFGHIJKLMNOPQRSTUVWXYZ0123456789_"
 	plans := make([]plan, n)
@@ -428,6 +485,15 @@ func main() {
 			pl.Outcome = e2e.Outcome(r.Range(1, 6))
 		}
 		pl.Ops, pl.Shape = genOps(r, pl.Protocol)
+		if i%6 == 5 { // PreLogin subscriber that talks to the client first (also on 1.8, where the proxy must refuse)
+			pl.PreMsgs = r.Pick(1, 1, 2)
+			pl.Ops, pl.Shape = genWaiting(r, pl.PreMsgs), "prelogin-plugin-messages"
+			if r.Chance(3, 4) {
+				pl.Online, pl.PreLogin, pl.Outcome, pl.ForceKey = true, "", e2e.OutProfile, false
+			}
+		} else if r.Chance(1, 12) {
+			pl.PreMsgs = 1
+		}
 		if pl.Shape == "wrong-length" { // make sure nothing else stands between this response and an admission
 			pl.Online, pl.PreLogin, pl.Outcome, pl.ForceKey = true, "", e2e.OutProfile, false
 		}
@@ -450,7 +516,8 @@ func main() {
 			map[string]string{"": "PAllow", "deny": "PDeny", "force-online": "PForceOnline", "force-offline": "PForceOffline"}[pl.PreLogin],
 			"false", lib.Bool(pl.Threshold >= 0 && pl.Protocol >= e2e.P1_8), lib.Bool(pl.Protocol >= e2e.P1_13), lib.Bool(pl.Protocol >= e2e.P1_20_2),
 			lib.Bool(pl.Protocol >= e2e.P1_19 && pl.Protocol < e2e.P1_19_3), lib.Bool(pl.ForceKey),
-			[]string{"SProfile", "SNoContent", "SUnauthorized", "SOtherStatus", "STransport", "SEmptyBody", "SBadProfile"}[pl.Outcome])
+			[]string{"SProfile", "SNoContent", "SUnauthorized", "SOtherStatus", "STransport", "SEmptyBody", "SBadProfile"}[pl.Outcome],
+			lib.Nat(pl.PreMsgs))
 		obsTerm := lib.ListOf(res.Obs, func(s stepObs) string {
 			return lib.App("Check.C08.mkObs", lib.List(s.Frames), lib.Bool(s.EncOn), lib.Nat(s.Joins), lib.Bool(s.Registered))
 		})
@@ -460,7 +527,7 @@ func main() {
 		for _, s := range res.Obs {
 			obsDesc = append(obsDesc, fmt.Sprintf("%s enc=%v joins=%d registered=%v", strings.Join(s.Frames, ","), s.EncOn, s.Joins, s.Registered))
 		}
-		desc := map[string]any{"protocol": pl.Protocol, "online_mode": pl.Online, "prelogin": pl.PreLogin, "compression": pl.Threshold,
+		desc := map[string]any{"protocol": pl.Protocol, "online_mode": pl.Online, "prelogin": pl.PreLogin, "prelogin_plugin_messages": pl.PreMsgs, "compression": pl.Threshold,
 			"force_key_auth": pl.ForceKey, "session_outcome": pl.Outcome.String(), "shape": pl.Shape, "name": pl.Name,
 			"ops": res.OpDescs, "observed": obsDesc, "join_args": res.JoinArgs, "notes": res.Notes}
 		if (f.Only < 0 || f.Only == i) && (errs[i] != "" || res.Err != "") {
@@ -475,7 +542,7 @@ func main() {
 		nt := hasLogin && hasEnc && !seen[sig]
 		seen[sig] = true
 		tags := []string{fmt.Sprintf("protocol=%d", pl.Protocol), "shape=" + pl.Shape, "outcome=" + pl.Outcome.String(),
-			fmt.Sprintf("online=%v", pl.Online), "prelogin=" + pl.PreLogin, fmt.Sprintf("len=%d", len(pl.Ops))}
+			fmt.Sprintf("online=%v", pl.Online), "prelogin=" + pl.PreLogin, fmt.Sprintf("prelogin-msgs=%d", pl.PreMsgs), fmt.Sprintf("len=%d", len(pl.Ops))}
 		admitted := false
 		for _, s := range res.Obs {
 			admitted = admitted || s.Registered
